@@ -90,6 +90,14 @@ def run(ctx):
                         script += [{"op": "accept"}, {"op": "wait_running"}, {"op": "adopt", "p": "f", "ctx": "thread"}]
                 script += [{"op": "wait_start", "p": "f"}, {"op": "wait_end", "timeout": 4.0}]
                 extra.append({"seed": ctx.seed, "jitter": 0.0, "payloads": pl, "services": sv, "script": script, "shape": "targeted-call-raises", "immediate_how": how})
+    # the STATE of the bystanders must not matter: a coroutine bystander that absorbs its first
+    # cancellation(s) (a retry loop), one with long shielded cleanup, one that has just started
+    for f in scen.FLAVS:
+        for k, how in enumerate(("exc:UserExc", "val:0", "base:UserBase")):
+            pl = {"f": {"flavour": f}, "b1": {"flavour": "asyncio", "swallow": 1 + k % 2, "cleanup": 1}, "b2": {"flavour": "trio", "cleanup": 1, "shielded": 2}, "b3": {"flavour": "threading"}}
+            extra.append({"seed": ctx.seed + k, "jitter": 0.0, "payloads": pl,
+                          "script": [{"op": "adopt", "p": "b1"}, {"op": "adopt", "p": "b2"}, {"op": "adopt", "p": "b3"}, {"op": "adopt", "p": "f"}, {"op": "accept"}, {"op": "wait_running"}, {"op": "wait_start", "p": "b1"}, {"op": "wait_start", "p": "b2"}, {"op": "wait_start", "p": "f"},
+                                     {"op": "step", "p": "b1"}, {"op": "end", "p": "f", "how": how}, {"op": "wait_end", "timeout": 4.0}], "shape": "targeted-bystander-absorbs-cancel"})
     scen.run_family(ctx, sh, names=NAMES, allow=(), extra_scenarios=extra, mc_invariants=["FailStopSafe", "CauseFaithful", "AtMostOnce", "CleanupBeforeEnd"], mc_properties=["FailStopLive"], per_shape=16 if thorough else 6, depth=40, label="c01")
     ctx.extra["rule"] = "shapes = failing flavour x failure kind (non-None value incl. falsy ones / Exception / BaseException / KeyboardInterrupt) x registration time (queued, adopted from a thread or from a payload of each flavour, service created before or after start) with bystanders of all flavours; per shape TLC-simulated behaviours projected to the controllable actions; distinct non-trivial = distinct (shape, sequence of starts/ends/cancellations/returns observed)"
     ctx.assumptions = [
